@@ -388,6 +388,56 @@ pub fn run(tier: &str) -> i32 {
         rep.sub("same-ranks-all-suits", "seven boards holding two, three, four and five cards of one suit or a pair x all ordered pairs (and a fifth of the triples) of disjoint combos among AQ, AA and 83 in every suit combination: hands of identical ranks that differ only by making a flush or not. distinct_nontrivial = tables in which somebody holds a flush", n, fl, false, json!({"combos": nc, "boards": nb}));
     }
 
+    // (g) the showdowns the flop evaluator itself builds: same oracle, on every showdown of a full enumeration
+    {
+        use espada::evaluator::FlopExhaustiveEvaluator;
+        use espada::hand_range::HandRange;
+        let flops = ["AsKh7d", "AsKs7d", "AsKs7s", "7s7hKd", "2c3d4h", "QhJd2c", "Th9h8c"];
+        let range_texts = ["QJs,98s", "AKs,76s:0.5", "55,A5s"];
+        let jobs: Vec<(usize, usize, usize)> = (0..flops.len()).flat_map(|f| (0..range_texts.len()).flat_map(move |a| (0..range_texts.len()).map(move |b| (f, a, b)))).collect();
+        let outs = par_map(jobs.len(), |j| {
+            let (f, a, b) = jobs[j];
+            let ft = flops[f];
+            let flop = [c(&ft[0..2]), c(&ft[2..4]), c(&ft[4..6])];
+            let mut n = 0u64;
+            let mut flushes = 0u64;
+            let r = catch(std::panic::AssertUnwindSafe(|| {
+                let ranges: Vec<HandRange> = vec![range_texts[a].parse().unwrap(), range_texts[b].parse().unwrap()];
+                let mut bad: Option<(Vec<u8>, Vec<(u8, u8)>, Value)> = None;
+                for sd in FlopExhaustiveEvaluator::new(&board_opt(&flop), &ranges) {
+                    n += 1;
+                    let bd: Vec<u8> = sd.board().iter().map(idx_of).collect();
+                    let board = [bd[0], bd[1], bd[2], bd[3], bd[4]];
+                    let holes: Vec<(u8, u8)> = sd.players().iter().map(|p| { let cb = Combo::of(&p.hole_cards()); (cb.0, cb.1) }).collect();
+                    let classes: Vec<u16> = holes.iter().map(|(x, y)| m.class7(&[*x, *y, board[0], board[1], board[2], board[3], board[4]])).collect();
+                    if classes.iter().any(|cl| { let k = m.category_of_class(*cl); k == 5 || k == 8 }) {
+                        flushes += 1;
+                    }
+                    if bad.is_none() {
+                        if let Some(v) = inspect(&sd, &board, &holes, &classes, sd.probability()) {
+                            bad = Some((bd.clone(), holes.clone(), v));
+                        }
+                    }
+                }
+                bad
+            }));
+            (r, n, flushes)
+        });
+        let mut n = 0u64;
+        let mut fl = 0u64;
+        for (j, (r, k, f)) in outs.into_iter().enumerate() {
+            n += k;
+            fl += f;
+            match r {
+                Ok(None) => {}
+                Ok(Some((bd, holes, v))) => viol(&mut rep, "through-the-evaluator", &[bd[0], bd[1], bd[2], bd[3], bd[4]], &holes, v),
+                Err(e) => rep.violation(Violation { key: format!("evaluator flop={} ranges={} / {}", flops[jobs[j].0], range_texts[jobs[j].1], range_texts[jobs[j].2]), sub: "through-the-evaluator".into(), case: json!({"flop": flops[jobs[j].0]}), expected: json!("enumerates"), observed: json!({"panic": e}) }),
+            }
+        }
+        rep.machine(n.max(1), n.max(1), jobs.len() as u64);
+        rep.sub("through-the-evaluator", "every showdown the flop evaluator builds on 7 flops (rainbow, two-tone, monotone, paired, low, connected) x all ordered pairs of three suited-heavy ranges: own evaluation = true class, flags = unbeaten players, winner_len. distinct_nontrivial = showdowns in which somebody holds a flush", n, fl, false, json!({"showdowns": n}));
+    }
+
     // (d) all boards x fixed tuples (collisions included: expect None exactly then)
     {
         let tuples: Vec<Vec<(u8, u8)>> = vec![
